@@ -54,6 +54,7 @@ type Exec struct {
 	storeSurelyAll bool
 	storeMaybeAll  bool
 
+	pendingDurable    []durableCheck
 	segmentlessFooter bool // a round left a footer tree without any persisted segment
 	deferred          *Violation
 }
@@ -897,6 +898,9 @@ func (e *Exec) caughtUp() bool {
 	if err != nil || st == nil {
 		return false
 	}
+	if os.Getenv("VERIF_DEBUG") != "" {
+		fmt.Fprintf(os.Stderr, "caughtUp: maybe=%v ops=%d bytes=%d segs=%d others=%v\n%s\n", e.storeMaybeAll, st.CurDirtyOps, st.CurDirtyBytes, st.CurDirtySegments, simrt.OthersEligible(), simrt.DumpTasks())
+	}
 	return st.CurDirtyOps == 0 && st.CurDirtyBytes == 0 && st.CurDirtySegments == 0 && !simrt.OthersEligible()
 }
 
@@ -904,6 +908,9 @@ func (e *Exec) caughtUp() bool {
 func (e *Exec) turnChecks(op Op) {
 	if e.viol != nil {
 		panic(abortRun{})
+	}
+	if len(e.pendingDurable) > 0 {
+		e.processDurable()
 	}
 	if op.Kind == "batch" && e.flag("verifyEach") {
 		e.checkColl("after-batch")
@@ -1070,6 +1077,7 @@ func contains(a []int, x int) bool {
 
 // finish closes everything and runs the end-of-run checks.
 func (e *Exec) finish() {
+	e.processDurable()
 	if e.flag("finalVerify") && e.collOpen {
 		e.checkColl("final")
 	}
